@@ -357,6 +357,16 @@ Meth(t, colon, p) ==
     /\ nid' = nid + 1
     /\ UNCHANGED <<nfile, gdefs, empty>>
 
+\* t[u] = 1 : an indexed assignment; both the table and the (non-constant) index are read
+IAssign(t, u) ==
+    /\ On("iassign") /\ More
+    /\ LET tb == Lookup(stack, t)
+           b  == Lookup(stack, u)
+       IN /\ prog' = Append(prog, [infn |-> InFunc, vis |-> VisIds, vispend |-> PendIds, top |-> AtTop, ingf |-> InGFunc, k |-> "iassign", t |-> t, tb |-> tb, altt |-> HideAlt(stack, t),
+                                   u |-> u, b |-> b, alt |-> HideAlt(stack, u)])
+          /\ reads' = reads \cup (IF tb = 0 THEN {} ELSE {tb}) \cup (IF b = 0 THEN {} ELSE {b})
+    /\ UNCHANGED <<stack, nid, nfile, gdefs, empty>>
+
 \* print(t.mm<k>) : reads t and the member defined by the method item at position k (possibly on another table)
 MUse(t, k) ==
     /\ On("muse") /\ More
@@ -433,6 +443,7 @@ Next ==
     \/ \E n \in Names, u \in UNames : ForNum(n, u) \/ ForIn(n, u)
     \/ \E n \in Names, p \in Names : LFunc(n, p) \/ LEqFunc(n, p) \/ GFunc(n, p)
     \/ \E t \in Names, c \in BOOLEAN, p \in Names : Meth(t, c, p)
+    \/ \E t \in Names, u \in UNames : IAssign(t, u)
     \/ \E t \in Names, k \in 1..MaxItems : MUse(t, k)
     \/ \E p \in Names : CFunc(p) \/ CChain(p)
     \/ \E u \in UNames : Return(u)
